@@ -23,7 +23,27 @@ enum Bad {
 }
 const BADS: &[Bad] = &[Bad::Idle, Bad::HalfMessage, Bad::CloseMidMessage, Bad::Garbage, Bad::SlowDrip, Bad::SendAndVanish, Bad::SendAndVanish, Bad::Flood];
 
+/// A round in which a well-behaved client gets neither a reply nor a close for 10 s (three
+/// further sentinels unanswered) while the service is up is repeated once with the same peers:
+/// starved again = blocked by a peer; not again = a slow machine (inconclusive).
 pub fn round(ctx: &Ctx, address: &str, tname: &str, nclients: usize, nbad: usize, seed: u64, round_no: usize) {
+    let silent = round_once(ctx, address, tname, nclients, nbad, seed, round_no);
+    if silent.is_empty() {
+        return;
+    }
+    let again = round_once(ctx, address, tname, nclients, nbad, seed, round_no);
+    if again.is_empty() {
+        ctx.inconclusive(json!({"why": "clients went unanswered for 10 s once but not when the round was repeated", "first": silent[0]}));
+    } else {
+        ctx.violation(
+            "c13:well-behaved-client-starved-beside-misbehaving-peers",
+            json!({"engine": "c13", "transport": tname, "clients": nclients, "seed": seed, "round": round_no, "message": format!("{} client(s) in the round and {} in its repetition got neither a reply nor a close for 10 s although the service is up", silent.len(), again.len()), "first": silent[0], "repeated": again[0]}),
+        );
+    }
+}
+
+fn round_once(ctx: &Ctx, address: &str, tname: &str, nclients: usize, nbad: usize, seed: u64, round_no: usize) -> Vec<Value> {
+    let mut silent: Vec<Value> = Vec::new();
     let mut rng = Rng::lane(seed, 1300 + round_no as u64);
     // misbehaving peers first (some), they stay open until the well-behaved clients are done
     let mut peers: Vec<(Bad, RawConn)> = Vec::new();
@@ -202,12 +222,16 @@ pub fn round(ctx: &Ctx, address: &str, tname: &str, nclients: usize, nbad: usize
     for (c, desc, r) in results.into_inner().unwrap() {
         match r {
             Ok(fr) => ctx.count("reply_frames_observed", fr as u64),
+            Err((sig, m, out)) if sig == "inconclusive" && m.contains("no frame") => {
+                silent.push(json!({"client": c, "why": m, "replies": out, "nclients": nclients, "misbehaving": format!("{:?}", bads)}));
+            }
             Err((sig, m, out)) if sig == "inconclusive" => {
                 ctx.inconclusive(json!({"client": c, "why": m, "replies": out, "nclients": nclients, "misbehaving": format!("{:?}", bads)}));
             }
             Err((sig, m, out)) => ctx.violation(&sig, json!({"engine": "c13", "transport": tname, "clients": nclients, "misbehaving": format!("{:?}", bads), "client": c, "requests": desc, "replies": out, "message": m, "seed": seed, "round": round_no})),
         }
     }
+    silent
 }
 
 /// One pass of the quiet-period history on a fresh server: a burst of `burst` simultaneous
